@@ -46,17 +46,18 @@ def mutate(rng, lines):
     return l
 
 
-def check(ctx, cases):
-    impl, model = ctx.impl(cases), ctx.model(cases)
+def check(ctx, cases, with_model=True):
+    impl = ctx.impl(cases, timeout=1800)
+    model = ctx.model(cases) if with_model else {}
     for c in cases:
-        i, m = impl[c["id"]], model[c["id"]]
+        i, m = impl[c["id"]], model.get(c["id"], {})
         io, mo = i.get("out") or {}, m.get("out") or {}
         ctx.seen(c, (c["before"], c["after"]) if c["before"] != c["after"] else None)
         pair = {"before": c["before"], "after": c["after"]}
         if "panic" in i or "crash" in i:
             ctx.fail("ComputeEdits panicked", pair, None, i)
             continue
-        if mo.get("none") or any(io.get(k) != mo.get(k) for k in ("ops", "edits", "lines")):
+        if with_model and (mo.get("none") or any(io.get(k) != mo.get(k) for k in ("ops", "edits", "lines"))):
             ctx.brk("diff.go/format.go ComputeEdits ~ Diff.computeEdits", pair, {k: io.get(k) for k in ("ops", "edits")},
                     {k: mo.get(k) for k in ("ops", "edits", "none")})
         if not io.get("inBounds") or io.get("applied") != c["after"]:
@@ -100,6 +101,25 @@ def run(ctx):
         rc.append({"id": len(cases) + k, "op": "c16.edits", "before": sa, "after": sb})
     check(ctx, rc)
     ctx.count("random-pairs", len(rc))
+    # large documents (hundreds to thousands of changed lines), implementation only: the theorem computeEdits_exact
+    # covers every size, the executable model is too slow to be run at this size, so the tie here is the property
+    # predicate itself (independent client applies the edits)
+    big = []
+    for k in range(6 if ctx.quick else 40):
+        n = rng.choice([400, 900, 1300, 2200])
+        a = ["rule_%d := %d" % (i, i) for i in range(n)]
+        mode = k % 3
+        if mode == 0:
+            b = ["\t" + l for l in a]                       # every line changes (re-indentation)
+        elif mode == 1:
+            b = [l for i, l in enumerate(a) if i % 3] + ["tail_%d := 0" % i for i in range(n // 2)]
+        else:
+            b = [("x" + l if i % 2 else l) for i, l in enumerate(a)]
+        sa = "\n".join(a) + ("\n" if k % 2 == 0 else "")
+        sb = "\n".join(b) + ("\n" if k % 4 < 2 else "")
+        big.append({"id": len(cases) + len(rc) + k, "op": "c16.edits", "before": sa, "after": sb})
+    check(ctx, big, with_model=False)
+    ctx.count("large-pairs (implementation only)", len(big))
     ctx.sample({"before": "a\nb\n", "after": "a\nc\n", "note": "see histogram for counts"})
     ctx.sample({"before": rc[3]["before"], "after": rc[3]["after"]})
 
